@@ -32,7 +32,7 @@ type token struct {
 func isWordStart(c byte) bool {
 	return c >= 'a' && c <= 'z' || c >= 'A' && c <= 'Z' || c == '_' || c == '@' || c >= 0x80
 }
-func isDigitB(c byte) bool { return c >= '0' && c <= '9' }
+func isDigitB(c byte) bool   { return c >= '0' && c <= '9' }
 func isWordPart(c byte) bool { return isWordStart(c) || isDigitB(c) || c == '$' }
 
 var multiOps = []string{"<=>", "->>", "<=", ">=", "<>", "!=", "<<", ">>", "->", "::", "||", "&&", ":="}
@@ -83,7 +83,8 @@ func lex(s string, pg bool) (out []token, ok bool) {
 			}
 			out = append(out, token{tComment, s[i : i+2+j+2]})
 			i = i + 2 + j + 2
-		case c == '-' && i+1 < n && s[i+1] == '-' && (i+2 >= n || s[i+2] == ' ' || s[i+2] == '\t' || s[i+2] == '\n'):
+		case c == '-' && i+1 < n && s[i+1] == '-':
+			// acra's tokenizer starts a comment at every `--` (MySQL itself wants white space after it)
 			j := strings.IndexByte(s[i:], '\n')
 			if j < 0 {
 				j = n - i
